@@ -32,7 +32,7 @@ BASE = dict(
     var=6, const=1, apply=10, ite=4, fop=0, eqcheck=2, quant=3, let=3,
     cube=2, find_or_add=2, drop=6, dup=2, traverse=0,
     gc=3, swap=3, reorder=1, pairs=1, configure=0, knobs=0, arm=0,
-    finalize=0, arm_final=0, redo=3, probe=2)
+    finalize=0, arm_final=0, redo=3, probe=2, mk_tt=5)
 
 
 def _w(**kw):
@@ -175,9 +175,12 @@ def gen_swap(w, r, cfg):
 
 
 def gen_reorder(w, r, cfg):
-    if r.random() < 0.5:
-        return dict(op='reorder', perm=None)
-    return dict(op='reorder', perm=[_ri(r, 1000) for _ in range(w.nv)])
+    x = r.random()
+    if x < 0.45:
+        return dict(op='reorder', perm=None, remember=int(r.random() < 0.3))
+    if x < 0.6:
+        return dict(op='reorder', restore=1, perm=None)
+    return dict(op='reorder', perm=[_ri(r, 1000) for _ in range(w.nv)], remember=int(r.random() < 0.3))
 
 
 def gen_pairs(w, r, cfg):
@@ -272,7 +275,7 @@ def prologue(w, cfg, r):
 
 M1_OK = {'var', 'const', 'apply', 'ite', 'fop', 'eqcheck', 'quant', 'let', 'cube',
          'gc', 'swap', 'reorder', 'pairs', 'declare', 'add_expr', 'to_expr',
-         'support', 'count', 'pick', 'sizes', 'traverse', 'configure', 'arm'}
+         'support', 'count', 'pick', 'sizes', 'traverse', 'configure', 'arm', 'mk_tt'}
 
 
 def next_instruction(w, r, cfg):
@@ -306,7 +309,11 @@ def next_instruction(w, r, cfg):
         return ins
     k = prng.weighted(r, table)
     ins = GEN[k](w, r, cfg)
-    if cfg.get('alloc_rate') and ins['op'] in ALLOC_OPS and r.random() < cfg['alloc_rate']:
+    # (with a focus, only that instruction runs under a limit: faults on the
+    # instructions that build the operands would starve the workload)
+    if cfg.get('alloc_rate') and ins['op'] in ALLOC_OPS and \
+            r.random() < (cfg['alloc_rate'] if not cfg.get('alloc_focus') else
+                          (0.35 if ins['op'] == cfg['alloc_focus'] else 0.0)):
         # F-alloc: the manager is full after about this many more nodes
         ins['alloc'] = r.choice([0, 0, 1, 1, 2, 3, 5, 8])
     return ins
